@@ -50,6 +50,14 @@ static std::string full_digest(SoPlex& spx, bool withSolution = true)
       for(double v : r.y) o << "," << hexd(v);
       for(double v : r.d) o << "," << hexd(v);
    }
+   // certificates of infeasible / unbounded solves belong to the solution as well
+   o << "|C" << spx.hasPrimalRay() << spx.hasDualFarkas();
+   if(withSolution)
+   {
+      int nn = spx.numCols(), mm = spx.numRows();
+      if(spx.hasPrimalRay()) { VectorReal v(nn); for(int j = 0; j < nn; ++j) v[j] = 12345.0; spx.getPrimalRay(v); for(int j = 0; j < nn; ++j) o << "," << hexd(v[j]); }
+      if(spx.hasDualFarkas()) { VectorReal w(mm); for(int i = 0; i < mm; ++i) w[i] = 12345.0; spx.getDualFarkas(w); for(int i = 0; i < mm; ++i) o << "," << hexd(w[i]); }
+   }
    // rational LP, if present
    o << "|R" << (spx._rationalLP != nullptr);
    if(spx._rationalLP != nullptr)
@@ -125,15 +133,28 @@ static uint64_t run_twin(const TinyLP& t, const ConfigSpace::Cfg& cfg, bool exac
 
 // ---- (b) copies --------------------------------------------------------------------------------------
 static const char* BASE = "n=2;m=2;max=1;off=3;c=1,2;lo=0,0;up=4,inf;lhs=-inf,-1;rhs=4,2;A=8,1|0.5,-2";
-static const char* INITN[] = {"empty", "loaded", "solved", "solved-no-presolve", "basis-set", "rational-lp-present", "rational-solved", "persistent-scaled"};
-static const int NINIT = 8;
+static const char* INITN[] = {"empty", "loaded", "solved", "solved-no-presolve", "basis-set", "rational-lp-present", "rational-solved", "persistent-scaled",
+                              "unbounded-no-presolve", "infeasible-no-presolve", "infeasible-exact"
+                             };
+static const int NINIT = 11;
 static void make_init(SoPlex& spx, Model& mo, int kind)
 {
    quiet(spx);
    mo = Model();
    if(kind == 0) return;
    if(kind == 5 || kind == 6) spx.setIntParam(SoPlex::SYNCMODE, SoPlex::SYNCMODE_AUTO);
-   if(kind == 3 || kind == 7) spx.setIntParam(SoPlex::SIMPLIFIER, SoPlex::SIMPLIFIER_OFF);
+   if(kind == 3 || kind == 7 || kind == 8 || kind == 9) spx.setIntParam(SoPlex::SIMPLIFIER, SoPlex::SIMPLIFIER_OFF);
+   if(kind == 10) spx.setIntParam(SoPlex::SYNCMODE, SoPlex::SYNCMODE_AUTO);
+   if(kind >= 8)
+   {
+      // unbounded: max x0+x1, x0-x1<=1; infeasible: x0+x1<=1, x0+x1>=2 (unique structure, certificates exist without presolve)
+      TinyLP lp = TinyLP::parse(kind == 8 ? "n=2;m=1;max=1;off=0;c=1,1;lo=0,0;up=inf,inf;lhs=-inf;rhs=1;A=1,-1" : "n=2;m=2;max=0;off=0;c=1,1;lo=0,0;up=inf,inf;lhs=-inf,2;rhs=1,inf;A=1,1|1,1");
+      load_real(spx, lp, 0);
+      mo = Model::from(lp);
+      if(kind == 10) spx.setIntParam(SoPlex::SOLVEMODE, SoPlex::SOLVEMODE_RATIONAL);
+      spx.optimize();
+      return;
+   }
    if(kind == 7) spx.setIntParam(SoPlex::SCALER, SoPlex::SCALER_GEO8);
    TinyLP lp = TinyLP::parse(BASE);
    load_real(spx, lp, 0);
